@@ -104,16 +104,18 @@ fn check(style: PathStyle, max_points: usize, max_contours: usize) {
     kani::cover!(r.is_err(), "malformed outline rejected");
 }
 
-// @bound one contour of <= 3 points
+// @bound one contour of <= 3 points; unwind 5
+// @timeout 420
 #[cfg_attr(kani, kani::proof)]
-#[cfg_attr(kani, kani::unwind(7))]
+#[cfg_attr(kani, kani::unwind(5))]
 pub fn c12_to_path_well_formed_freetype_style() {
     check(PathStyle::FreeType, 3, 1);
 }
 
-// @bound one contour of <= 3 points
+// @bound one contour of <= 3 points; unwind 5
+// @timeout 420
 #[cfg_attr(kani, kani::proof)]
-#[cfg_attr(kani, kani::unwind(7))]
+#[cfg_attr(kani, kani::unwind(5))]
 pub fn c12_to_path_well_formed_harfbuzz_style() {
     check(PathStyle::HarfBuzz, 3, 1);
 }
